@@ -4,6 +4,7 @@ import SodiumModel.Driver.C16
 import SodiumModel.Driver.C15
 import SodiumModel.Driver.C03
 import SodiumModel.Driver.C04
+import SodiumModel.Driver.C09
 open Sodium.Driver
 
 def handlers : List (String → List String → Option String) := [
@@ -14,24 +15,33 @@ def handlers : List (String → List String → Option String) := [
   Sodium.Driver.C04.handle
 ]
 
-def dispatch (line : String) : String :=
-  match (line.trimAscii.toString.splitOn " ").filter (· ≠ "") with
-  | [] => "empty"
-  | op :: args =>
-    let rec go : List (String → List String → Option String) → String
-      | [] => "bad-op"
-      | h :: hs => match h op args with
-        | some r => r
-        | none => go hs
-    go handlers
+/-- state carried between op lines (stateful families only) -/
+structure DState where
+  ss : Sodium.Driver.C09.Slots := Array.replicate 4 none
 
-partial def loop (h : IO.FS.Stream) (out : IO.FS.Stream) : IO Unit := do
+def dispatch (st : DState) (line : String) : DState × String :=
+  match (line.trimAscii.toString.splitOn " ").filter (· ≠ "") with
+  | [] => (st, "empty")
+  | op :: args =>
+    match Sodium.Driver.C09.handle st.ss op args with
+    | some (ss', r) => ({ st with ss := ss' }, r)
+    | none =>
+      let rec go : List (String → List String → Option String) → String
+        | [] => "bad-op"
+        | h :: hs => match h op args with
+          | some r => r
+          | none => go hs
+      (st, go handlers)
+
+partial def loop (h : IO.FS.Stream) (out : IO.FS.Stream) (st : DState) : IO Unit := do
   let line ← h.getLine
   if line.isEmpty then return ()
-  out.putStrLn (dispatch line)
-  loop h out
+  let (st', r) := dispatch st line
+  out.putStrLn r
+  out.flush
+  loop h out st'
 
 def main : IO Unit := do
   let out ← IO.getStdout
-  loop (← IO.getStdin) out
+  loop (← IO.getStdin) out {}
   out.flush
